@@ -71,7 +71,8 @@ func (p *Prog) verifyFunc(fn *ssa.Function, ct *Contract) (res *FuncResult) {
 		fr.freeVars = append(fr.freeVars, v)
 		// captured variable x is visible by name through its cell
 		if pt, ok := fv.Type().Underlying().(*types.Pointer); ok {
-			_ = pt
+			// a captured variable lives in its own heap cell
+			vc.assumeRaw(tAnd(tNot(tEq(v.S[0], "0")), tEq(v.S[1], "0"), tEq(sx("dtype", v.S[0]), tInt(int64(p.typeID(pt.Elem()))))))
 			fr.specVars["&"+fv.Name()] = v
 		}
 	}
